@@ -18,6 +18,9 @@ demopath=$(grep -oE '[a-zA-Z0-9_/.-]*seeded_demo_test\.go' $src/demo_cmd.txt | g
 runcmd=$(grep -oE "go test [^\`]*" $src/demo_cmd.txt | head -1)
 cp $src/$demo $out/$demo
 res() { echo "$1" | tee -a $out/confirm.log; }
+if [ "${SEEDTEST_SKIP_CONFIRM:-}" = 1 ]; then
+  cd /; git -C /repo worktree remove --force $wt
+else
 : > $out/confirm.log
 cd $wt
 if ! git apply $out/patch.diff; then res "PATCH DOES NOT APPLY"; cd /; git -C /repo worktree remove --force $wt; exit 3; fi
@@ -29,6 +32,8 @@ git apply -R $out/patch.diff
 if ( eval "$runcmd" ) > $out/demo_without.log 2>&1; then res "demo_passes_without_patch=yes"; else res "demo_passes_without_patch=NO"; fi
 res "demo_path=$demopath demo_cmd=$runcmd"
 cd /; git -C /repo worktree remove --force $wt
+fi
+[ "${SEEDTEST_CONFIRM_ONLY:-}" = 1 ] && exit 0
 # now against the checks
 git -C /repo apply $out/patch.diff || { res "cannot apply to /repo"; exit 4; }
 for id in "$@"; do
